@@ -8,10 +8,10 @@ CONSTANTS
  DedupMode = "peer+id"
  AtomicDedup = TRUE
  AllowRelay = TRUE
- MCCfgs <- Cfg3
+ MCCfgs <- Cfg34
  Bodies = {x, y}
- MaxFSig = 5
- MaxB = 1
+ MaxFSig = 4
+ MaxB = 0
  Conc = 3
  Lists = "best"
 SYMMETRY Sym
